@@ -57,7 +57,7 @@ def model_checking(ctx):
             constants={"MaxLen": depth, "Emit": False, "Timed": False, "BfsKeys": ks, "BfsOpt": '"%s"' % opt},
             invariants=invs, view="View"), workers=workers, timeout=3000)
         return "keys%d-depth%d-%s" % (ks, depth, opt), {"states": r.distinct, "transitions": r.generated, "depth": r.depth}
-    return dict(ctx.pmap(job, plan, par=len(plan)))
+    return dict(ctx.pmap(job, plan, par=min(4, len(plan))))
 
 
 # ------------------------------------------------------------------------------------------ histories
